@@ -325,6 +325,12 @@ func PrepareFact(ctx *Context, givenId string, x Map) (id string, m map[string]i
 		return
 	}
 	Log(DEBUG, ctx, "PrepareFact", "givenId", givenId, "id", id)
+	if IsVariable(id) {
+		// Ids end up in patterns ('deleteWith').
+		err = fmt.Errorf("id '%s' cannot start with a '?'", id)
+		Log(UERR, ctx, "PrepareFact", "givenId", givenId, "error", err)
+		return
+	}
 
 	expiring, expires, err := setExpires(ctx, m)
 	if err != nil {
